@@ -661,6 +661,80 @@ func (c17) RunCase(c fw.Case, env *fw.Env) *fw.CaseResult {
 		}
 		res.Stat("placements_learned", int64(len(place)))
 	}
+	// ---- one shard refuses a request while every server is up: an update whose merge would make a
+	// stored point larger than the plan allows is refused by the shard that holds the point, for the
+	// whole request. The other shards (also those on the same server) answer. Nothing of that
+	// request may then be reported 'not found': not every shard answered.
+	if okp && len(col.ShardIds) >= 2 && len(r.m.Docs) > 0 {
+		ids := r.m.SortedIds()
+		victim := ids[rng.IntN(len(ids))]
+		vs := place[victim]
+		cl := httpx.NewClient(nodes[rng.IntN(len(nodes))].HTTPAddr, r.user, "P")
+		cl.Msgpack = true
+		blob := strings.Repeat("x", 40<<10)
+		grow := []model.Point{{Id: victim, Doc: model.Doc{"blob": blob}}}
+		resp := cl.Do("PUT", "/v2/collections/"+r.colId+"/points", pointsBody(grow))
+		if resp.Status != 200 || len(parseFailedPoints(resp).ids) > 0 {
+			res.Violate("update", "C17:grow-update", fmt.Sprintf("update adding a 40 kB field to a stored point answered %d %s %v", resp.Status, trimBody(resp.Body), resp.Err), nil)
+			return res
+		}
+		r.m.Update(grow, 0)
+		pts := []model.Point{{Id: victim, Doc: model.Doc{"blob2": blob}}}
+		same, other := 0, 0
+		for _, id := range ids {
+			if id == victim {
+				continue
+			}
+			if place[id] == vs && same < 3 {
+				same++
+				pts = append(pts, model.Point{Id: id, Doc: model.Doc{"note": "with-oversize"}})
+			} else if place[id] != vs && other < 4 {
+				other++
+				pts = append(pts, model.Point{Id: id, Doc: model.Doc{"note": "with-oversize"}})
+			}
+		}
+		pts = append(pts, model.Point{Id: r.g.NewId(), Doc: model.Doc{"note": "unknown"}})
+		rng.Shuffle(len(pts), func(a, b int) { pts[a], pts[b] = pts[b], pts[a] })
+		resp = cl.Do("PUT", "/v2/collections/"+r.colId+"/points", pointsBody(pts))
+		res.Stat("updates_refused_by_one_shard", 1)
+		sameServer := false
+		for _, sid := range col.ShardIds {
+			if sid != vs && cluster.RendezvousHash(sid, servers, 1)[0] == cluster.RendezvousHash(vs, servers, 1)[0] {
+				sameServer = true
+			}
+		}
+		if sameServer {
+			res.Stat("refusing_shard_had_an_answering_neighbour_on_its_server", 1)
+		}
+		res.Eval(true, r.topo, "update-one-shard-refuses", same, other)
+		if resp.Status != 200 {
+			res.Violate("update", "C17:update-status", fmt.Sprintf("update with one oversize merge answered %d %s %v", resp.Status, trimBody(resp.Body), resp.Err), nil)
+			return res
+		}
+		failed := parseFailedPoints(resp)
+		var want []uuid.UUID
+		for _, p := range pts {
+			_, live := r.m.Docs[p.Id]
+			if !live || place[p.Id] == vs {
+				want = append(want, p.Id)
+			} else {
+				r.m.Update([]model.Point{p}, 0)
+			}
+		}
+		if len(failed.ids) != len(want) {
+			where := []string{}
+			for _, p := range pts {
+				where = append(where, fmt.Sprintf("%s in %s", p.Id, place[p.Id]))
+			}
+			logs := []string{}
+			for i, n := range nodes {
+				logs = append(logs, fmt.Sprintf("node%d: %s", i, lastErrorLines(n.Log(), 6)))
+			}
+			res.Note("update refused by one shard: refusing shard %s; request %v; answer %s; LOG %v", vs, where, string(resp.Body), logs)
+		}
+		r.checkFailedList("update-refused-by-one-shard", failed.ids, want, failed.msgs, true, len(failed.ids) > 0)
+		r.checkIdReads(0, col, false, nil, nil)
+	}
 	// ---- one shard server down (a real process, killed)
 	if len(nodes) >= 2 && len(col.ShardIds) >= 2 && okp {
 		owner := cluster.RendezvousHash(r.user, servers, 1)[0]
